@@ -14,6 +14,9 @@ func NDPOptionsRaw(t *rapid.T, allowBad bool) []byte {
 	n := rapid.IntRange(0, 5).Draw(t, "nopt")
 	for i := 0; i < n; i++ {
 		typ := rapid.SampledFrom([]byte{1, 2, 3, 5, 24, 25, 31, 14, 200}).Draw(t, "otype")
+		if rapid.IntRange(0, 2).Draw(t, "anyType") == 0 { // every option type a sender can put on the wire (RFC 8910, 8781, 4191, ... and unassigned)
+			typ = rapid.Byte().Draw(t, "otypeAny")
+		}
 		units := 1
 		switch typ {
 		case 1, 2, 5:
